@@ -124,7 +124,9 @@ impl Trie {
     }
 }
 
-fn outcome_of(evs: &[String], ntasks: usize) -> String {
+/// Outcome projection of one execution; `None` if the scheduler chose a merely parked task
+/// somewhere (a spurious wake-up: validated by the trace check, not part of the outcome sets).
+fn outcome_of(evs: &[String], ntasks: usize) -> Option<String> {
     let mut obs: Vec<Vec<i64>> = vec![vec![]; ntasks];
     let mut started = vec![false; ntasks];
     let mut returned = vec![false; ntasks];
@@ -146,8 +148,11 @@ fn outcome_of(evs: &[String], ntasks: usize) -> String {
                     }
                 }
             }
-            "st" => {
-                started[v["c"].as_u64().unwrap() as usize] = true;
+            "dec" => {
+                let ch = v["ch"].as_i64().unwrap();
+                if v["sp"].as_array().unwrap().iter().any(|x| x.as_i64() == Some(ch)) {
+                    return None;
+                }
             }
             "end" => {
                 verdict = v["v"].as_str().unwrap().to_string();
@@ -157,7 +162,7 @@ fn outcome_of(evs: &[String], ntasks: usize) -> String {
     }
     let _ = started;
     let unf: Vec<usize> = (0..ntasks).filter(|&c| !returned[c]).collect();
-    json!({"obs":obs,"v":verdict,"unf":unf}).to_string()
+    Some(json!({"obs":obs,"v":verdict,"unf":unf}).to_string())
 }
 
 /// Enumerate the whole schedule tree of one program with the walker; returns (trie, meta).
@@ -193,7 +198,9 @@ fn enumerate(p: &Prog, cap: u64) -> (Trie, Value) {
         }
         for ex in rec::take_done() {
             execs += 1;
-            outcomes.insert(outcome_of(&ex, p.tasks.len()));
+            if let Some(o) = outcome_of(&ex, p.tasks.len()) {
+                outcomes.insert(o);
+            }
             trie.add(&ex);
         }
     }
